@@ -81,9 +81,18 @@ def gen_history(rng, kind):
                 return {'op': 'runs', 'c': c, 'runs': [
                     [BRANCHES[0], 1, 'push', 'completed', concl]]}
             return {'op': 'set', 'c': c, 'key': k, 'state': state}
-        ops.append(make('SUCCESSFUL'))
-        ops.append(rng.choice([{'op': 'poll', 'c': c, 'key': k},
-                               {'op': 'deliver', 'i': 0}]))
+        if k == 'github_actions' and rng.random() < 0.5:
+            # the webhook of the still running build is being handled (its
+            # own request to the host in flight) while the build ends green
+            # and another thread polls
+            ops.append({'op': 'runs', 'c': c, 'runs': [
+                [BRANCHES[0], 1, 'push', 'in_progress', None]]})
+            ops.append({'op': 'overlap', 'i': 0, 'during': [
+                make('SUCCESSFUL'), {'op': 'poll', 'c': c, 'key': k}]})
+        else:
+            ops.append(make('SUCCESSFUL'))
+            ops.append(rng.choice([{'op': 'poll', 'c': c, 'key': k},
+                                   {'op': 'deliver', 'i': 0}]))
         ops.append(make(rng.choice(['FAILED', 'FAILED', 'INPROGRESS'])))
         for i in range(rng.randint(0, 4)):
             ops.append(rng.choice([
@@ -109,8 +118,19 @@ def gen_history(rng, kind):
             else:
                 ops.append({'op': 'set', 'c': c, 'key': k,
                             'state': rng.choice(STATES + ['SUCCESSFUL'])})
-        elif r < 0.45:
+        elif r < 0.40:
             ops.append({'op': 'deliver', 'i': rng.randrange(6)})
+        elif r < 0.45:
+            during = []
+            if k == 'github_actions':
+                during.append({'op': 'runs', 'c': c,
+                               'runs': gen_runs(rng, c, None)})
+            else:
+                during.append({'op': 'set', 'c': c, 'key': k,
+                               'state': rng.choice(STATES + ['SUCCESSFUL'])})
+            during.append({'op': 'poll', 'c': c, 'key': k})
+            ops.append({'op': 'overlap', 'i': rng.randrange(6),
+                        'during': during})
         elif r < 0.80:
             ops.append({'op': 'poll', 'c': c, 'key': k})
         elif r < 0.85:
@@ -319,12 +339,15 @@ class History:
                                 'no run at all yields SUCCESSFUL', {})
 
     def _with_served(self, fn):
+        import threading
         served = []
         orig = self.host.route
+        me = threading.current_thread()
 
         def route(request, url, path):
             status, body, headers = orig(request, url, path)
-            if path.endswith('/actions/runs') and status == 200:
+            if path.endswith('/actions/runs') and status == 200 and \
+                    threading.current_thread() is me:
                 import json
                 served.append(json.loads(body)['workflow_runs'])
             return status, body, headers
@@ -389,6 +412,60 @@ class History:
                             'a build-started notification created a job',
                             {})
         return told
+
+    def op_overlap(self, op):
+        """A webhook handler whose own request to the host is still in
+        flight (the answer was produced, its delivery is delayed) while the
+        host changes and another thread of the server polls: the ops of
+        op['during'] run in that window.  Strict hand-off: one thread runs
+        at a time."""
+        import threading
+        if not self.pending:
+            return
+        main = threading.current_thread()
+        in_flight, release = threading.Event(), threading.Event()
+        state = {'blocked': False}
+        orig_send = self.host.send
+
+        def send(request, **kw):
+            resp = orig_send(request, **kw)
+            if threading.current_thread() is not main and \
+                    not state['blocked']:
+                state['blocked'] = True
+                in_flight.set()
+                release.wait(60)
+            return resp
+        self.host.send = send
+        result = {}
+
+        def run():
+            try:
+                result['res'] = self.op_deliver({'op': 'deliver',
+                                                 'i': op['i']})
+            except BaseException as err:
+                result['exc'] = err
+            finally:
+                in_flight.set()
+        t = threading.Thread(target=run, daemon=True)
+        t.start()
+        in_flight.wait(60)
+        try:
+            if state['blocked']:
+                self.probe('webhook-overlapped-by-%d-ops' % len(
+                    op['during']))
+                self.stats['faults']['delayed-response'] = \
+                    self.stats['faults'].get('delayed-response', 0) + 1
+                for o in op['during']:
+                    self.apply(o)
+            else:
+                self.probe('overlap-without-a-request')
+        finally:
+            release.set()
+            t.join(60)
+            self.host.send = orig_send
+        if 'exc' in result:
+            raise result['exc']
+        return result.get('res')
 
     def op_poll(self, op):
         key = op['key']
